@@ -105,6 +105,10 @@ type serviceAuthenticate struct {
 }
 
 func (s *serviceAuthenticate) Receive(m *net.Message, from Channel) error {
+	// authenticate is a call: only a call may run it and be answered.
+	if m.Header.Type != net.Call {
+		return fmt.Errorf("unexpected message type: %d", m.Header.Type)
+	}
 	if m.Header.Action != object.AuthenticateActionID {
 		return from.SendError(m, ErrActionNotFound)
 	}
